@@ -103,7 +103,10 @@ impl<F: Float, D: Dimension> LogisticRegressionParams<F, D> {
     /// multinomial regression, `params` also must have the same number of columns as the number of
     /// distinct classes in `y`.
     pub fn initial_params(mut self, params: Array<F, D>) -> Self {
-        self.0.initial_params = Some(params);
+        // kept in standard (row-major) layout: the optimizer's reductions follow the memory order of
+        // the parameter array, so the fit would otherwise depend on the layout the caller happened to
+        // use -- and a deserialized parameter set (always row-major) would fit to a different model
+        self.0.initial_params = Some(params.as_standard_layout().into_owned());
         self
     }
 }
